@@ -1,3 +1,4 @@
+import NmlVerif.Model.Glue
 /-
 Executable model of `neuroml/hdf5/NetworkBuilder.py` (the handler interface of `DefaultNetworkHandler` that the HDF5
 and XML parsers drive), for property C07.
@@ -19,6 +20,7 @@ flags the code branches on (`weight == 1`, `delay == 0`, `segId != 0`, `fract !=
 builder ignores further calls (the parser driving it has died).
 -/
 namespace NmlVerif.NetBuilder
+open NmlVerif.Glue
 
 structure Ref where
   who : Bool
@@ -151,6 +153,10 @@ def tab {α : Type} (sh : Bool) (me : Bool) (w : World) (sel : Tables → List (
 def lookRef (sh : Bool) (me : Bool) (w : World) (sel : Tables → List (String × Ref)) (k : String) : Option Ref :=
   if sh then alookup (sel w.shared) k else (alookup (sel (w.get me).priv) k).map (fun r => ⟨me, r.idx⟩)
 
+/-- the reference stored for a new object of builder `me`: absolute in a shared table; in a private table only the
+    index matters (the owner is the reader) and the owner field is normalised -/
+def mkRef (sh : Bool) (me : Bool) (idx : Nat) : Ref := ⟨if sh then me else true, idx⟩
+
 def updTab (sh : Bool) (me : Bool) (w : World) (f : Tables → Tables) : World :=
   if sh then { w with shared := f w.shared } else w.upd me (fun s => { s with priv := f s.priv })
 
@@ -192,7 +198,7 @@ def hPopulation (cfg : Cfg) (me : Bool) (w : World) (id comp : String) (size : I
     let w := addComp w me compObj
     let idx := (w.get me).pops.length
     let pop : Pop := ⟨n, id, comp, size, keepNotes notes, props, none, []⟩
-    let w := updTab cfg.pops me w (fun t => { t with pops := aset t.pops id ⟨me, idx⟩ })
+    let w := updTab cfg.pops me w (fun t => { t with pops := aset t.pops id (mkRef cfg.pops me idx) })
     w.upd me (fun s => { s with pops := s.pops ++ [pop] })
 
 def hLocation (cfg : Cfg) (me : Bool) (w : World) (id pop : String) (xyz : Option (String × String × String)) : World :=
@@ -229,9 +235,20 @@ def hProjection (cfg : Cfg) (me : Bool) (w : World) (id pre post : String) (syn 
           | none => (addComp w me (some ("SilentSynapse:silentSyn_" ++ id)), "silentSyn_" ++ id)
         updTab cfg.projSynPre me w (fun t => { t with projSynPre := aset t.projSynPre id preId })
       else w
-    let w := updTab cfg.projs me w (fun t => { t with projs := aset t.projs id ⟨me, idx⟩ })
+    let w := updTab cfg.projs me w (fun t => { t with projs := aset t.projs id (mkRef cfg.projs me idx) })
     let w := updTab cfg.projType me w (fun t => { t with projType := aset t.projType id typ })
     updTab cfg.wd me w (fun t => { t with wd := aset t.wd id hasWD })
+
+def finaliseCore (me : Bool) (w : World) (id pre post : String) (syn : Option String) (t : String) : World :=
+  let s := w.get me
+  match s.nets.length with
+  | 0 => fail w me "AttributeError"
+  | n + 1 =>
+    if t == "projection" || t == "electricalProjection" then
+      if s.projs.any (fun p => p.net == n && p.kind == t && p.id == id) then w
+      else w.upd me (fun s => { s with projs := s.projs ++
+        [⟨n, t, id, pre, post, if t == "projection" then syn else none, []⟩] })
+    else w
 
 def hFinaliseProjection (cfg : Cfg) (me : Bool) (w : World) (id pre post : String) (syn : Option String)
     (typ : Option String) : World :=
@@ -240,16 +257,7 @@ def hFinaliseProjection (cfg : Cfg) (me : Bool) (w : World) (id pre post : Strin
     | none => alookup (tab cfg.projType me w (·.projType)) id
   match typ? with
   | none => fail w me "KeyError"
-  | some t =>
-    let s := w.get me
-    match s.nets.length with
-    | 0 => fail w me "AttributeError"
-    | n + 1 =>
-      if t == "projection" || t == "electricalProjection" then
-        if s.projs.any (fun p => p.net == n && p.kind == t && p.id == id) then w
-        else w.upd me (fun s => { s with projs := s.projs ++
-          [⟨n, t, id, pre, post, if t == "projection" then syn else none, []⟩] })
-      else w
+  | some t => finaliseCore me w id pre post syn t
 
 def hConnection (cfg : Cfg) (me : Bool) (w : World) (proj connId pre post : String) (preCell postCell : Int)
     (preSeg postSeg preFract postFract delay : String) (delayIsZero : Bool) (weight : String) (weightIsOne : Bool) :
@@ -303,7 +311,7 @@ def hInputList (cfg : Cfg) (me : Bool) (w : World) (id pop comp : String) (compO
   | n + 1 =>
     let w := addComp w me compObj
     let idx := (w.get me).ilists.length
-    let w := updTab cfg.ilists me w (fun t => { t with ilists := aset t.ilists id ⟨me, idx⟩ })
+    let w := updTab cfg.ilists me w (fun t => { t with ilists := aset t.ilists id (mkRef cfg.ilists me idx) })
     w.upd me (fun s => { s with ilists := s.ilists ++ [⟨n, id, comp, pop, []⟩] })
 
 def hSingleInput (cfg : Cfg) (me : Bool) (w : World) (list id : String) (cell : Int) (seg : String) (segIsZero : Bool)
@@ -356,5 +364,19 @@ def bstep (s : BState) (c : HCall) : BState := (step Cfg.allPrivate true { a := 
 def brun : List HCall → BState → BState
   | [], s => s
   | c :: cs, s => brun cs (bstep s c)
+
+/-! ### which tables are shared: read off the extracted table -/
+
+/-- the class attribute `NetworkBuilder.<attr>` is a table shared between builders when the scan found it as a
+    class-level mutable that the constructors do not shadow -/
+def sharedAttr (t : Table) (names : Array String) (attr : String) : Bool :=
+  t.vars.any fun v =>
+    v.kind == .classAttr && v.mutableVal && !v.initShadowed &&
+      names[v.id]? == some ("neuroml/hdf5/NetworkBuilder.py::NetworkBuilder." ++ attr)
+
+def cfgOfTable (t : Table) (names : Array String) : Cfg :=
+  ⟨sharedAttr t names "populations", sharedAttr t names "projections", sharedAttr t names "input_lists",
+   sharedAttr t names "projection_syns", sharedAttr t names "projection_types", sharedAttr t names "projection_syns_pre",
+   sharedAttr t names "weightDelays"⟩
 
 end NmlVerif.NetBuilder
